@@ -200,9 +200,9 @@ impl VM {
 
         // reset some state
         self.instructions = code.instructions;
-        self.ip = 0;
+        self.ip = code.entry;
         self.bp = 0;
-        self.frames[0].ip = 0;
+        self.frames[0].ip = code.entry;
         self.frames[0].base_pointer = 0;
 
         // a previous run that ended in an error may have left operands and call frames behind
